@@ -110,6 +110,10 @@ step1:
 
 	// Use parse256(I_L) as secret key
 	key, err := curve.NewPrivateKey(left)
+	// Any error other than ErrInvalidKey is permanent and returned to the caller
+	if err != nil && !errors.Is(err, ErrInvalidKey) {
+		return nil, err
+	}
 	// If the secret key is invalid, set S ← I and recompute I
 	if err != nil {
 		seed = inter
